@@ -3,6 +3,7 @@ data home.  A fault-free, exhaustive configuration sweep inside the simulated wo
 (fake remote, audit hook, scratch data home): what makes it a job for the simulator is that its
 observation points are the simulator's seams (the URL handed to urlretrieve, files created on disk).
 """
+import copy
 import importlib
 import os
 import random
@@ -132,6 +133,25 @@ def run_name_case(params, st, keep_log=False):
                 run.fail("documented-name-unreachable", key, f"{what} raised ValueError: {a.exc}")
             if a.exc is not None:
                 run.fail("documented-name-load-failed", key, f"{what} raised {type(a.exc).__name__}: {a.exc}")
+            # the result belongs to the caller: keep a copy for the checks below, then do what callers do -
+            # modify it in place - and ask again; every request must still be answered with the dataset itself
+            scn["first_result"] = copy.deepcopy(a.result)
+            parts = a.result if isinstance(a.result, tuple) else (a.result,)
+            for part in parts:
+                if isinstance(part, np.ndarray) and part.size and part.flags.writeable:
+                    part[...] = part[::-1] * 0.5 + 1.0
+            expected = bundled_expected(name) if bundled else (ds.expected if ds is not None else None)
+            for again_unpack in (True, False):
+                b = run.spawn_loader(_raw(spelled, again_unpack), role="again")
+                run.sim.run(on_step=run.on_step, step_cap=run.sim.step + 400)
+                w2 = f"load_dataset({spelled!r}, unpack_dataset_columns={again_unpack}) after the caller modified, in place, " \
+                     f"the arrays returned by an earlier load"
+                if b.exc is not None:
+                    run.fail("reload-after-caller-edit-failed", key, f"{w2} raised {type(b.exc).__name__}: {b.exc}")
+                well_formed(run, b.result, again_unpack, expected, key, w2)
+                if bundled and b.attrs.get("net_calls", 0):
+                    run.fail("bundled-used-network", key, f"{w2}: network call")
+            a.result = scn.pop("first_result")
             return
         if isinstance(a.exc, ValueError) and "No such dataset" in str(a.exc):
             run.fail("documented-name-unreachable", key, f"{what} raised ValueError: {a.exc}")
